@@ -103,6 +103,26 @@ CLAIMED = {
             "Default-theory rule: Multisphere iff max separation <= 30 * largest radius (2 and 3 spheres, symbolic), "
             "single/one-sphere/layered/missing-parameter/spheroid/cylinder/other/non-scatterer cases, 'auto' == explicit.",
             '§2 C09', TRUST + "; theory classes = markers; SCSMFO order independence / covariance outside"),
+    'C10': ('model_checking',
+            "For every real Euler-angle triple, size and wavevector accepted by the Python layer, the arguments "
+            "handed to the Fortran T-matrix code cannot satisfy its closed-form STOP guards (angular ranges, "
+            "INM1 >= NPN1); guards are parsed from ampld.lp.f at every run and counterexamples are replayed in a "
+            "child process against the extension compiled from /repo.",
+            '§2 C10', TRUST + "; iteration-dependent STOPs (convergence failures), sphere limit and symmetries "
+            "outside the claim; x**0.333333 uninterpreted"),
+    'C11': ('model_checking',
+            "Each parameter value lands at exactly the places its prior was used (transformations, complex priors, "
+            "shared priors, per-channel dicts, name collisions; 40 seeded structures quick / 400 thorough, symbolic "
+            "value vectors); name-keyed == list-ordered; initial guess; add_tie for all 26 subsets of 5 candidates; "
+            "rebuild from own parameters without shared state; edit_map_indices on symbolic tie indices (LIA).",
+            '§2 C11', TRUST + "; structures enumerated (bounded), values symbolic"),
+    'C13': ('model_checking',
+            "NARROW: what the Python layers around the optimiser guarantee - start vector = scaled guess, limits = "
+            "scaled finite bounds, every reported parameter within its prior's bounds, names, best-fit hologram and "
+            "log-probability equal the forward model (also for pixel subsets, on the original grid), residual "
+            "vector, strategy reusable - with the optimiser a nondeterministic stub honouring its limits.",
+            '§2 C13', TRUST + "; convergence behaviour of Levenberg-Marquardt (fixed point, monotone improvement, "
+            "recovery, repeatability) and save/load are NOT claimed"),
 }
 
 NOT_YET = {}
